@@ -264,18 +264,19 @@ fn process_tcp_packet(
         ObservableHttpPackage { http_request: None, http_response: None };
 
     let flow_key: FlowKey = (src_ip, dst_ip, src_port, dst_port);
+    let reversed_key: FlowKey = (dst_ip, src_ip, dst_port, src_port);
     let (tcp_flow, is_client) = {
         if let Some(flow) = http_flows.get_mut(&flow_key) {
             (Some(flow), true)
+        } else if let Some(flow) = http_flows.get_mut(&reversed_key) {
+            (Some(flow), false)
         } else {
-            let reversed_key: FlowKey = (dst_ip, src_ip, dst_port, src_port);
-            if let Some(flow) = http_flows.get_mut(&reversed_key) {
-                (Some(flow), false)
-            } else {
-                (None, false)
-            }
+            (None, false)
         }
     };
+    // A flow is stored under the key of the packet that opened it; a packet of the
+    // reverse direction must remove it under that key, not under its own.
+    let stored_key: FlowKey = if is_client { flow_key } else { reversed_key };
 
     if let Some(flow) = tcp_flow {
         if !tcp.payload().is_empty() {
@@ -328,7 +329,7 @@ fn process_tcp_packet(
             // Remove from http_flows if both request and response are parsed
             if flow.client_http_parsed && flow.server_http_parsed {
                 debug!("Both HTTP request and response parsed, removing from http_flows early");
-                http_flows.remove(&flow_key);
+                http_flows.remove(&stored_key);
                 return Ok(observable_http_package);
             }
 
@@ -338,7 +339,7 @@ fn process_tcp_packet(
                 != 0
             {
                 debug!("Connection closed or reset");
-                http_flows.remove(&flow_key);
+                http_flows.remove(&stored_key);
             }
         }
     } else if tcp.get_flags() & pnet::packet::tcp::TcpFlags::SYN != 0 {
